@@ -37,13 +37,21 @@ def gen_sched(rng) -> Dict[str, Any]:
     return {"seed": rng.randrange(1 << 30), "adv": rng.random() < 0.5, "weights": w}
 
 
+_frozen = False
+
+
 @contextlib.contextmanager
 def session(sched: Optional[Dict[str, Any]], nodes: List[Any]):
     """Runs the body under a virtual scheduler; every node appended to `nodes` is shut down before the session
     closes.  The garbage collector is off during the case and runs at the end, inside the session, so that
     `__del__` -> `_shutdown()` of abandoned iterators happens at a fixed point of the schedule."""
+    global _frozen
     sched = sched or {"seed": 0, "adv": False, "weights": None}
     gc.collect()
+    if not _frozen:
+        # everything imported so far (torch!) leaves the collector's view: a collection per case stays cheap
+        gc.freeze()
+        _frozen = True
     gc.disable()
     try:
         with vsched.Session(sched["seed"], adversarial=bool(sched.get("adv")), weights=sched.get("weights") or None) as s:
